@@ -7,13 +7,34 @@ Open Scope N_scope.
 
 Definition bkey (b : backend) : N * N := (b_id b, b_addr b).
 
+(** a TCP / UDP address carries frontends of one cluster only *)
+Definition gInvT (m : gmap N (list tfront)) : Prop :=
+  forall c1 c2 l1 l2 t1 t2, m !! c1 = Some l1 -> m !! c2 = Some l2 -> t1 ∈ l1 -> t2 ∈ l2 -> t_addr t1 = t_addr t2 -> c1 = c2.
+
+Lemma addr_elsewhere_true m c a :
+  addr_elsewhere m c a = true <-> exists c' l, c' <> c /\ m !! c' = Some l /\ a ∈ (t_addr <$> l).
+Proof.
+  unfold addr_elsewhere. rewrite existsb_exists. split.
+  - intros [[c' l] [Hin H]]. cbn [fst snd] in H. apply andb_true_iff in H as [H1 H2].
+    exists c', l. split; [apply negb_true_iff, N.eqb_neq in H1; exact H1|].
+    split; [apply elem_of_map_to_list, elem_of_list_In; exact Hin|apply bool_decide_eq_true in H2; exact H2].
+  - intros (c' & l & Hne & Hl & Ha). exists (c', l). split; [apply elem_of_list_In, elem_of_map_to_list; exact Hl|].
+    cbn [fst snd]. apply andb_true_iff. split; [apply negb_true_iff, N.eqb_neq; exact Hne|apply bool_decide_eq_true; exact Ha].
+Qed.
+Lemma addr_elsewhere_false m c a :
+  (forall c' l, c' <> c -> m !! c' = Some l -> a ∉ (t_addr <$> l)) -> addr_elsewhere m c a = false.
+Proof.
+  intros H. apply not_true_iff_false. intros Ht. apply addr_elsewhere_true in Ht as (c' & l & Hne & Hl & Ha). exact (H c' l Hne Hl Ha).
+Qed.
+
 (** the reachable-state invariant replay needs *)
 Definition InvR (fingerprint : N -> option N) (inames : N -> option (list N)) (hc_valid : N -> bool) (s : state) : Prop :=
   Inv5 hc_valid s
   /\ (forall c l, backends s !! c = Some l -> isort bk_le l = l /\ NoDup (bkey <$> l))
   /\ (forall udp c l, get_t udp s !! c = Some l -> NoDup (t_addr <$> l))
   /\ (forall a b fp k, certs s !! a = Some b -> b !! fp = Some k ->
-        fingerprint (k_pem k) = Some fp /\ resolve inames k = Some (k_names k)).
+        fingerprint (k_pem k) = Some fp /\ resolve inames k = Some (k_names k))
+  /\ (forall udp, gInvT (get_t udp s)).
 
 Lemma list_to_map_filter_to_list `{Countable K} {V} (P : K * V -> Prop) `{!forall x, Decision (P x)} (m : gmap K V) :
   list_to_map (filter P (map_to_list m)) = filter P m.
@@ -42,13 +63,16 @@ Section buckets.
   (** ** tcp / udp frontends *)
   Lemma replay_tfront_bucket udp c l : forall pre m s,
     NoDup (t_addr <$> (pre ++ l)) -> default [] (m !! c) = pre ->
+    (forall t, t ∈ l -> forall c' l', c' <> c -> m !! c' = Some l' -> t_addr t ∉ (t_addr <$> l')) ->
     replay (map (RAddTFront udp c) l) (set_t udp s m)
     = (set_t udp s (match l with [] => m | _ => <[c := pre ++ l]> m end), 0%nat).
   Proof.
-    induction l as [|t l IH]; intros pre m s Hnd Hpre; [reflexivity|].
+    induction l as [|t l IH]; intros pre m s Hnd Hpre Hoth; [reflexivity|].
     assert (Hget : forall m0, get_t udp (set_t udp s m0) = m0) by (intros; destruct udp; reflexivity).
     assert (Hset : forall m0 m', set_t udp (set_t udp s m0) m' = set_t udp s m') by (intros; destruct udp; reflexivity).
-    cbn [map Model.replay Model.dispatch]. unfold add_tfront. rewrite Hget, Hpre.
+    cbn [map Model.replay Model.dispatch]. unfold add_tfront. rewrite Hget.
+    rewrite (addr_elsewhere_false m c (t_addr t)) by (intros c' l' Hne Hl'; apply (Hoth t (elem_of_list_here _ _) c' l' Hne Hl')).
+    rewrite Hpre.
     assert (Hnin : t_addr t ∉ (t_addr <$> pre)).
     { rewrite fmap_app in Hnd. apply NoDup_app in Hnd as (_ & Hd & _). intros Hin. apply (Hd _ Hin). left. }
     rewrite bool_decide_eq_false_2 by exact Hnin. rewrite Hset.
@@ -57,6 +81,8 @@ Section buckets.
       rewrite insert_insert, <- app_assoc. reflexivity.
     - rewrite <- app_assoc. exact Hnd.
     - rewrite lookup_insert. reflexivity.
+    - intros t' Ht' c' l' Hne Hl'. rewrite lookup_insert_ne in Hl' by congruence.
+      apply (Hoth t' (elem_of_list_further _ _ _ Ht') c' l' Hne Hl').
   Qed.
 
   Definition put_bucket {A} (m : gmap N (list A)) (cl : N * list A) : gmap N (list A) :=
@@ -65,10 +91,12 @@ Section buckets.
   Lemma replay_tfronts udp (lb : list (N * list tfront)) : forall acc s,
     NoDup (lb.*1) -> (forall c, c ∈ lb.*1 -> acc !! c = None) ->
     (forall c l, In (c, l) lb -> NoDup (t_addr <$> l)) ->
+    (forall c1 l1 c2 l2, In (c1, l1) lb -> In (c2, l2) lb -> c1 <> c2 -> forall t, t ∈ l1 -> t_addr t ∉ (t_addr <$> l2)) ->
+    (forall c l, In (c, l) lb -> forall t, t ∈ l -> forall c' l', acc !! c' = Some l' -> t_addr t ∉ (t_addr <$> l')) ->
     replay (flat_map (fun cl : N * list tfront => map (RAddTFront udp (fst cl)) (snd cl)) lb) (set_t udp s acc)
     = (set_t udp s (foldl put_bucket acc lb), 0%nat).
   Proof.
-    induction lb as [|[c l] lb IH]; intros acc s Hnd Hacc Hl; [reflexivity|].
+    induction lb as [|[c l] lb IH]; intros acc s Hnd Hacc Hl Hg Hga; [reflexivity|].
     inversion Hnd as [|? ? Hni Hnd']; subst.
     cbn [flat_map fst snd]. rewrite replay_app.
     rewrite (replay_tfront_bucket udp c l [] acc s).
@@ -78,8 +106,16 @@ Section buckets.
       + intros c' Hc'. destruct l; [apply Hacc; right; exact Hc'|].
         rewrite lookup_insert_ne; [apply Hacc; right; exact Hc'|]. intros ->. apply Hni. exact Hc'.
       + intros c' l' Hin. eapply Hl. right. exact Hin.
+      + intros c1 l1 c2 l2 H1 H2. apply Hg; right; assumption.
+      + intros c1 l1 Hin t Ht c' l' Hl'. destruct l as [|x l]; [apply (Hga c1 l1 (or_intror Hin) t Ht c' l' Hl')|].
+        destruct (decide (c' = c)) as [->|Hne].
+        * rewrite lookup_insert in Hl'. inversion Hl'; subst l'.
+          apply (Hg c1 l1 c (x :: l)); [right; exact Hin|left; reflexivity| |exact Ht].
+          intros ->. apply Hni. apply elem_of_list_fmap. exists (c, l1). split; [reflexivity|apply elem_of_list_In; exact Hin].
+        * rewrite lookup_insert_ne in Hl' by congruence. apply (Hga c1 l1 (or_intror Hin) t Ht c' l' Hl').
     - cbn [app]. eapply Hl. left. reflexivity.
     - rewrite Hacc by left. reflexivity.
+    - intros t Ht c' l' Hne Hl'. apply (Hga c l (or_introl eq_refl) t Ht c' l' Hl').
   Qed.
 
   Lemma foldl_put_bucket {A} (lb : list (N * list A)) : forall acc,
@@ -101,10 +137,10 @@ Section buckets.
   Qed.
 
   Lemma replay_gen_tfronts udp m s :
-    get_t udp s = ∅ -> (forall c l, m !! c = Some l -> NoDup (t_addr <$> l)) ->
+    get_t udp s = ∅ -> (forall c l, m !! c = Some l -> NoDup (t_addr <$> l)) -> gInvT m ->
     replay (gen_tfronts udp m) s = (set_t udp s (drop_empty m), 0%nat).
   Proof.
-    intros He Hl. unfold gen_tfronts.
+    intros He Hl Hgi. unfold gen_tfronts.
     assert (Es : s = set_t udp s ∅) by (destruct udp, s; cbn in *; subst; reflexivity).
     rewrite Es at 1. rewrite replay_tfronts.
     - rewrite foldl_put_bucket; [|apply NoDup_fst_map_to_list|intros; apply lookup_empty].
@@ -112,6 +148,10 @@ Section buckets.
     - apply NoDup_fst_map_to_list.
     - intros; apply lookup_empty.
     - intros c l Hin. eapply Hl. apply elem_of_map_to_list, elem_of_list_In. exact Hin.
+    - intros c1 l1 c2 l2 H1 H2 Hne t Ht Hin.
+      apply elem_of_list_In, elem_of_map_to_list in H1. apply elem_of_list_In, elem_of_map_to_list in H2.
+      apply elem_of_list_fmap in Hin as [t2 [E Ht2]]. apply Hne. exact (Hgi c1 c2 l1 l2 t t2 H1 H2 Ht Ht2 E).
+    - intros c l _ t _ c' l' Hl'. rewrite lookup_empty in Hl'. discriminate.
   Qed.
 
   (** ** backends *)
@@ -301,7 +341,7 @@ Section full.
     InvR fingerprint inames hc_valid s ->
     replay (generate_requests s) empty_state = (rebuilt s, 0%nat).
   Proof.
-    intros ([Hhc Hfk] & Hb & Ht & Hc).
+    intros ([Hhc Hfk] & Hb & Ht & Hc & Hgi).
     unfold generate_requests, gen_listeners.
     destruct (section_order_free fingerprint inames hc_valid steps empty_state) as (HL & _ & _).
     rewrite replay_app, (HL LHttp (http_l s) _ eq_refl (reflexivity _)).
@@ -326,9 +366,9 @@ Section full.
     destruct (section_order_free fingerprint inames hc_valid steps s7) as (_ & _ & HF7).
     rewrite replay_app, (HF7 true (https_f s) _ eq_refl (reflexivity _) (Hfk true)).
     set (s8 := set_f true s7 (https_f s)).
-    rewrite replay_app, (replay_gen_tfronts fingerprint inames hc_valid steps false (tcp_f s) s8 eq_refl (Ht false)).
+    rewrite replay_app, (replay_gen_tfronts fingerprint inames hc_valid steps false (tcp_f s) s8 eq_refl (Ht false) (Hgi false)).
     set (s9 := set_t false s8 _).
-    rewrite replay_app, (replay_gen_tfronts fingerprint inames hc_valid steps true (udp_f s) s9 eq_refl (Ht true)).
+    rewrite replay_app, (replay_gen_tfronts fingerprint inames hc_valid steps true (udp_f s) s9 eq_refl (Ht true) (Hgi true)).
     set (s10 := set_t true s9 _).
     rewrite (replay_gen_backends fingerprint inames hc_valid steps (backends s) s10 eq_refl Hb).
     reflexivity.
